@@ -541,6 +541,8 @@ func (r *dtRun) someDay(lo, hi time.Time) time.Time {
 	return r.dayRange(lo, hi)
 }
 
+var dtSpecialRunes = []rune{0x61, 0xff, 0x100, 0xd7ff, 0xe000, 0xfffd, 0xffff, 0x10000, 0x10ffff, 0x20ac, 0x1f600, 0xfeff, 0xfffe, ' ', 0xa0, 0x3000, '\n', 0x2028}
+
 func (r *dtRun) randRunes(n int) string {
 	rs := make([]rune, n)
 	for i := range rs {
@@ -556,8 +558,15 @@ func (r *dtRun) randRunes(n int) string {
 		case 4:
 			rs[i] = rune(0x10000 + r.rng.Intn(0x100000))
 		default:
-			rs[i] = []rune{0x61, 0xff, 0x100, 0xd7ff, 0xe000, 0xfffd, 0xffff, 0x10000, 0x10ffff, 0x20ac, 0x1f600}[r.rng.Intn(11)]
+			rs[i] = dtSpecialRunes[r.rng.Intn(len(dtSpecialRunes))]
 		}
+	}
+	// byte order marks, blanks and line ends at either end are characters like any other
+	if r.rng.Intn(4) == 0 {
+		rs[0] = dtSpecialRunes[r.rng.Intn(len(dtSpecialRunes))]
+	}
+	if r.rng.Intn(4) == 0 {
+		rs[n-1] = []rune{' ', '\n', 0xfeff, 0xfffe, 0x3000, 0xa0, 'x'}[r.rng.Intn(7)]
 	}
 	return string(rs)
 }
@@ -925,7 +934,14 @@ func (r *dtRun) all() {
 			n = 1 + r.rng.Intn(255)
 		}
 		bs := randBytes(r.rng, n)
-		bs[len(bs)-1] |= 1 // trailing NUL / blank padding is the server's business (not judged here)
+		switch r.rng.Intn(4) { // values that end in (or consist of) blanks and NUL bytes are values like any other
+		case 0:
+			bs[len(bs)-1] = ' '
+		case 1:
+			bs[len(bs)-1] = 0
+		case 2:
+			bs[0] = ' '
+		}
 		str := string(bs)
 		if r.rng.Intn(2) == 0 {
 			str = r.randRunes(1 + r.rng.Intn(60))
@@ -934,7 +950,9 @@ func (r *dtRun) all() {
 			}
 		}
 		long := randBytes(r.rng, 1+r.rng.Intn(3000))
-		long[len(long)-1] |= 1
+		if r.rng.Intn(3) == 0 {
+			long[len(long)-1] = []byte{0, ' '}[r.rng.Intn(2)]
+		}
 		r.rt(asetypes.BINARY, bs, 255)
 		r.rt(asetypes.VARBINARY, bs, 255)
 		r.rt(asetypes.LONGBINARY, long, 0x7fffffff)
